@@ -395,6 +395,17 @@ def check_ellipse(fx, R):
         if isinstance(x, tuple):
             return tuple(expand(y, depth + 1) if i else y for i, y in enumerate(x))
         return x
+    # a path that leaves the constructor before the decomposition
+    from .. import earlyexit
+    top = f['body']['s'] if f['body'] and f['body'].get('k') == 'Compound' else []
+    dec_i = next((i for i, x in enumerate(top) if x.get('k') == 'Decl' and any('JacobiSVD' in (v['t'].get('s') or '') or 'EigenSolver' in (v['t'].get('s') or '') for v in x['vars'])), None)
+    for (node, ctext, tol) in earlyexit.exits_before(top, dec_i):
+        if tol and 'covariance' in ctext.lower():
+            R.violated('K4', 'Ellipse(covariance):tolerance-shortcut', 'under `%s` the ellipse is built without the decomposition; the test is %s on covariance entries whose magnitude the quantifier does not '
+                       'bound (standard deviations of millimetres give entries of 1e-6): a correlated covariance of small magnitude is treated as axis-aligned, orientation and radii then do not reproduce it' % (ctext, tol),
+                       fx.rel(node['loc']), 'E-STATE')
+        else:
+            R.undecided('K4', 'Ellipse(covariance):shortcut', 'a path leaves the constructor before the decomposition under `%s`' % ctext)
     svd = [n for n, d in decls.items() if isinstance(d, tuple) and str(d[0]).startswith('new:Eigen::JacobiSVD') and len(d) > 1 and d[1] == 'covarianceMatrix']
     eig = [n for n, d in decls.items() if isinstance(d, tuple) and str(d[0]).startswith('new:Eigen::SelfAdjointEigenSolver') and len(d) > 1 and d[1] == 'covarianceMatrix']
     maj, mnr, ori = expand(assigns.get('this.majorRadius_')), expand(assigns.get('this.minorRadius_')), expand(assigns.get('this.orientation_'))
